@@ -40,7 +40,7 @@ add(
     "inf_retis is compared entry-wise with W_ij*perm(W^ij)/perm(W) from an independent subset-DP permanent (exact integer / rational "
     "arithmetic up to 9x9): exhaustively for all 0/1 staircase matrices, busy subsets and row arrangements up to 4 plus-ensembles "
     "(sampled arrangements for 5-6), and for Hypothesis-generated matrices with integer/real high-acceptance weights up to 11 "
-    "plus-ensembles, incl. frame counts of very long paths that differ by a few frames; metamorphic row rescaling (factors 2^-30 .. 2^30); direct permanent_prob / quick_prob comparisons; Monte-Carlo path (>12) only structurally.",
+    "plus-ensembles, incl. frame counts of very long paths that differ by a few frames; blocks of exactly 12 paths (the largest computed exactly); metamorphic row rescaling (factors 2^-30 .. 2^30); the cached matrix equals a fresh evaluation over generated histories; direct permanent_prob / quick_prob comparisons; Monte-Carlo path (>12) only structurally.",
     "Minus path in slot 0, ghost row/column zero and busy, symmetric busy slots (maintained by pick/add_traj; checked under C03/C05). "
     "Tolerance 1e-9 absolute on probabilities; unreachable blocks (perm=0) are excluded and counted.",
 )
@@ -51,7 +51,7 @@ add(
     "Distance, Distancevel, Dihedral, Puckering, Velocity, Position are evaluated on generated configurations and on their images under "
     "rigid translation, per-atom box-vector shifts, proper rotations and velocity reversal (directly and through "
     "EngineBase.calculate_order with vel_rev from arrays and from the configuration file); values are also compared with closed forms; "
-    "3- vs 9-component boxes; minimum-image bound; bitwise no-mutation of the system; exactly planar trans / cis dihedrals (180 / 0 degrees); boxes with an unbounded (infinite) axis; periodic pair parameters through calculate_order on a configuration file that carries no box (the phase point's own box applies). Sampled.",
+    "3- vs 9-component boxes; minimum-image bound; bitwise no-mutation of the system; exactly planar trans / cis dihedrals (180 / 0 degrees); boxes with an unbounded (infinite) axis; the box updated in place between two evaluations of one parameter object; repeated evaluations through one engine object on an unchanged file; periodic pair parameters through calculate_order on a configuration file that carries no box (the phase point's own box applies). Sampled.",
     "Orthogonal boxes; separations within 1e-6 L of exactly L/2 excluded from invariance clauses (rounding tie); collinear "
     "geometries and planar rings avoided by construction.",
 )
@@ -177,7 +177,7 @@ add(
     "C16",
     "property-based testing (Hypothesis) of modify_velocities on five engine classes built from generated input directories + statistical tests with harness-side unit constants",
     "CP2K, LAMMPS, GROMACS (infretis_genvel), ASE and TurtleMD engines are constructed from generated inputs (atom counts, element masses incl. "
-    "integer-typed masses, positions, old velocities, temperatures, zero_momentum settings, stream seeds, ASE velocity-Verlet / Langevin with and without fixcm, TurtleMD systems of one, two and three dimensions); "
+    "integer-typed masses, positions, old velocities, LAMMPS box rows with tilt factors, temperatures, zero_momentum settings, stream seeds, ASE velocity-Verlet / Langevin with and without fixcm, TurtleMD systems of one, two and three dimensions); "
     "before the statistics a second engine of the same class, temperature and size but other masses draws in the same process; modify_velocities is checked per call with "
     "independent readers of the written frame (positions/box/identities preserved, source frame byte-identical, zero momentum, kin_new = 1/2 sum m "
     "v^2 of the written velocities, dek, reproducible from the job stream only, global RNG untouched) the wire-fencing move is run with the scripted engine, which records every velocity request: zero_momentum as configured reaches the engine; and statistically (per atom mean 0 and "
@@ -192,7 +192,7 @@ add(
     "parsers (values filling the fixed-width fields, shuffled ids, non-zero lower box bounds, 3/9-component boxes, multi-frame files, frame k "
     "extraction, velocity reversal changes velocities only); TRR frames from an independent struct encoder decode exactly for 2 byte orders x "
     "2 precisions and identically across byte orders, also with velocity / force blocks in some frames only and triclinic boxes (all nine g96 BOX entries), frames that carry any subset of the box / virial / pressure matrices; "
-    "mdp / CP2K (incl. keywords repeated within a section and sibling sections with one and the same header) / LAMMPS template editors are compared with reference edit models "
+    "mdp / CP2K (incl. keywords repeated within a section and sibling sections with one and the same header, two requested sections below one missing parent section) / LAMMPS template editors are compared with reference edit models "
     "(exactly the requested entries change - numeric values incl. 0 and 0.0 as the engines pass them; second application is a no-op; CP2K compared as unordered section trees). Sampled.",
     "Editors are driven with the engines' call patterns; velocities fit the 15-character g96 field with either sign; LAMMPS write_for_run consumes its variables, so idempotence means 'function of template and settings'.",
 )
@@ -210,7 +210,7 @@ add(
     "C18",
     "property-based testing (Hypothesis) of near-miss configurations against a validity predicate transcribed from the statement; accepted configurations are initialised and run in forks",
     "Valid lattice configurations are mutated in 0-2 fields (interfaces order/duplicates/count, workers, moves length, cap incl. 0.0 and wf-ensemble "
-    "interfaces, lambda_-1 incl. 0, engine sections, quantis); invalid by the predicate => setup_config must raise TOMLConfigError (acceptance or any "
+    "interfaces, lambda_-1 incl. 0, engine sections - also GROMACS-class sections beside an undefined name -, quantis); invalid by the predicate => setup_config must raise TOMLConfigError (acceptance or any "
     "other exception is a violation), also when the same settings arrive as a restart file (a user who edits restart.toml); accepted => with constructed valid start paths setup_internal succeeds, diagonal weights non-zero, all first "
     "picks succeed, the [0-] ensemble is set up for the configured lambda_-1 (any value, 0.0 included), an explicit ensemble_engines layout is what the ensembles "
     "and first picks use, a short run completes, the ensemble definitions do not change when another simulation (other interfaces, lambda_-1 toggled) is set up in the same interpreter, and the restart file is a fixed point of setup_config's normalisation. Sampled.",
